@@ -268,6 +268,15 @@ func cmdCheck(args []string) int {
 				for m, n := range hr.EndMsgs {
 					fmt.Printf("    end: %s (x%d)\n", m, n)
 				}
+				for _, v := range hr.Violations {
+					var ints []string
+					for _, d := range v.Draws {
+						if d["kind"] == "int" {
+							ints = append(ints, fmt.Sprintf("%v=%v", d["name"], d["value"]))
+						}
+					}
+					fmt.Printf("    violation: %s %q trace=%v %s\n", v.Kind, v.Label, v.Trace, strings.Join(ints, " "))
+				}
 			}
 			for _, m := range hr.Inconcl {
 				inconcl = append(inconcl, h.Name+": "+m)
